@@ -743,11 +743,16 @@ class ConfigDict(Config):
         return iter(self._values.keys())
 
 
+# Bytes that _parse_string() strips from either end of an unquoted value
+_STRIPPED_EDGE_CHARS = (b" ", b"\t", b"\n", b"\r", b"\x0b", b"\x0c")
+
+
 def _format_string(value: bytes) -> bytes:
     if (
-        value.startswith((b" ", b"\t"))
-        or value.endswith((b" ", b"\t"))
+        value.startswith(_STRIPPED_EDGE_CHARS)
+        or value.endswith(_STRIPPED_EDGE_CHARS)
         or b"#" in value
+        or b";" in value
     ):
         return b'"' + _escape_value(value) + b'"'
     else:
